@@ -145,6 +145,7 @@ func sdScenario(rng *rand.Rand, n, q int, ctxTimeout time.Duration) []tr.Ev {
 			}
 		}(c, k)
 	}
+	long := rng.Intn(4) == 0 // one handler that outlasts the poller's 2-second idle rule
 	time.Sleep(5 * time.Millisecond) // let the server register the connections
 	durs := []uint32{0, 0, 30, 150, 400}
 	nreq := rng.Intn(7)
@@ -162,7 +163,11 @@ func sdScenario(rng *rand.Rand, n, q int, ctxTimeout time.Duration) []tr.Ev {
 		binary.BigEndian.PutUint32(p, 16)
 		binary.BigEndian.PutUint32(p[4:], uint32(r))
 		binary.BigEndian.PutUint32(p[8:], uint32(c))
-		binary.BigEndian.PutUint32(p[12:], durs[rng.Intn(len(durs))])
+		d := durs[rng.Intn(len(durs))]
+		if long {
+			d, long = 2700, false
+		}
+		binary.BigEndian.PutUint32(p[12:], d)
 		rec.Emit("ReqSent", "c", c, "r", r)
 		conns[c].Write(p)
 		if rng.Intn(3) == 0 {
@@ -182,7 +187,7 @@ func sdScenario(rng *rand.Rand, n, q int, ctxTimeout time.Duration) []tr.Ev {
 	go func() { readers.Wait(); close(done) }()
 	select {
 	case <-done:
-	case <-time.After(2500 * time.Millisecond):
+	case <-time.After(4500 * time.Millisecond):
 	}
 	select {
 	case <-served:
